@@ -2,7 +2,7 @@
    reveal_plates standing for the TRANSLATED library function (Generated/SrcReveal.v), is load, the model's
    reveal_plates (mappings carried), save. *)
 From Coq Require Import ZArith List Bool.
-From Batchie Require Import Lib.Sexp Lib.PyRt Model.Encode Model.Screen Model.Reveal Generated.SrcReveal Proofs.C12Source.
+From Batchie Require Import Lib.Sexp Lib.PyRt Model.Encode Model.Screen Model.Reveal Generated.SrcReveal Proofs.C12Source_Reveal.
 From Batchie Require Import Proofs.PyRtLemmas.
 From Batchie Require Model.Cli Generated.SrcCli Proofs.C12SourceCli.
 Import ListNotations.
